@@ -193,7 +193,8 @@ func nodeDataPresent(g *Graph, n *node) bool {
 	return vs.Implies(n.providerSpec == nil, n.arg.ASTTypeExpr != nil && (len(g.edges[n]) >= 1 || n == g.returnValue.node)) &&
 		vs.Implies(n.providerSpec != nil, importsNonNil(n.providerSpec.ReferencedImports) &&
 			vs.Forall(len(n.providerSpec.Provides), func(k int) bool { return len(n.providerSpec.Provides[k]) >= 1 }) &&
-			vs.Implies(isFieldAccessNode(n), n.providerSpec.SourceField != nil && len(n.providerSpec.Provides) >= 1))
+			vs.Implies(isFieldAccessNode(n), n.providerSpec.SourceField != nil && len(n.providerSpec.Provides) >= 1 &&
+				!n.providerSpec.IsAsync && !n.providerSpec.IsReturnError))
 }
 
 // topoOK: the yield order - every node once, every edge forward.
